@@ -312,6 +312,14 @@ func GetOutputNodes(root *html.Node) []*html.Node {
 			if !IsProbablyVisible(node) {
 				return false
 			}
+
+			// What the parser keeps of a <noscript> element is its markup as plain
+			// text, which would be written into the output as it is: unsanitised
+			// markup for whoever reads the output with scripting disabled.
+			if node.Data == "noscript" {
+				return false
+			}
+
 			outputNodes = append(outputNodes, node)
 			return true
 
